@@ -253,7 +253,11 @@ func planSched(scens []Scenario, depth int, judge func(sc *Scenario, st *engine.
 		engine.DeterminismGuard(fn, nil)
 		ex := engine.NewExplorer(fn, engine.Opts{P: mode.P, M: mode.M, Unbounded: mode.Unbounded, Delay: mode.Delay})
 		level := [][]int{nil}
-		for d := 0; d < depth; d++ {
+		dsc := depth
+		if dsc > 1 && len(sc.Call.Msa)+len(sc.Call.Sam)+len(sc.Call.Target) > 1500 {
+			dsc = 1 // long executions (large inputs): the parent only splits at the first level
+		}
+		for d := 0; d < dsc; d++ {
 			var next [][]int
 			for _, p := range level {
 				next = append(next, ex.Children(p)...)
@@ -403,7 +407,23 @@ func addSchedLayer(p *Prop, prefix string, scens func() []Scenario) {
 	judge := canonJudge(prefix)
 	plan, exec := p.Plan, p.Exec
 	p.Plan = func(tier string) ([]string, *engine.JobResult) {
-		sj, pre := planSched(get(), 1, judge)
+		scs, depth := get(), 1
+		if tier == "thorough" {
+			// deeper bounds: 4 non-default choices on the small inputs, 2 on the large ones, 3 with visible writes
+			scs = append([]Scenario{}, scs...)
+			for i := range scs {
+				switch scs[i].Mode {
+				case "D2M1":
+					scs[i].Mode = "D4M2"
+				case "D1M0":
+					scs[i].Mode = "D2M0"
+				case "D2M0":
+					scs[i].Mode = "D3M1"
+				}
+			}
+			depth = 2
+		}
+		sj, pre := planSched(scs, depth, judge)
 		jobs, pre2 := plan(tier)
 		if pre2 != nil {
 			pre.Merge(pre2)
@@ -427,7 +447,7 @@ func addSchedLayer(p *Prop, prefix string, scens func() []Scenario) {
 		}
 		return exec(tier, job)
 	}
-	p.Rule += " Schedule layer: on 4-record inputs of this property's pipeline every execution with <=2 non-default scheduling choices (2 workers), on 70-record inputs (more than any channel buffer) every execution with <=1, plus the starvation family (each goroutine in turn runs only when nothing else can), must reproduce the canonical schedule's output (which the layers above judge)."
+	p.Rule += " Schedule layer: on 4-record inputs of this property's pipeline every execution with <=2 (thorough: <=4) non-default scheduling choices (2 workers), on 70-record inputs (more than any channel buffer) every execution with <=1 (thorough: <=2), on 3-record inputs with every Write to the output as a visible operation every execution with <=2 (thorough: <=3) - no write may be pending when the command returns -, on 1- and 2-record inputs where listed every interleaving, plus the starvation family (each goroutine in turn runs only when nothing else can), must reproduce the canonical schedule's output (which the layers above judge)."
 }
 
 // schedPair builds the 4-record (D2M1) and 70-record (D1M1) scenarios of one call shape.
